@@ -224,9 +224,9 @@ func (t *Transaction) Bulk(handle Handle, ops []Operation, ordered bool) ([]Resu
 		// run operation
 		switch op.Opcode {
 		case Insert:
-			res, err = t.insert(handle, oplog, namespace, op.Document)
+			res, err = t.insert(handle, oplog, namespace, bsonkit.Clone(op.Document))
 		case Replace:
-			res, err = t.replace(handle, oplog, namespace, op.Filter, op.Document, op.Sort, op.Upsert)
+			res, err = t.replace(handle, oplog, namespace, op.Filter, bsonkit.Clone(op.Document), op.Sort, op.Upsert)
 		case Update:
 			res, err = t.update(handle, oplog, namespace, op.Filter, op.Document, op.Sort, op.Upsert, op.Skip, op.Limit, op.ArrayFilters)
 		case Delete:
